@@ -88,6 +88,7 @@ def run(F, rep, tier):
     cg = CallGraph(F, [crate])
     bodies = F.bodies(crate)
     rep.rule("C07-R1", "CRC verifier call dominates the section parser call at every caller of the parser, on the same reader, and its Err edge is propagated; the parser has no ungated caller; the verifier compares the stored trailer with the hash of the rest and returns Err on mismatch")
+    rep.rule("C07-R2", "the two encoders (CompileCtx::compile, ParsedProgram::to_bytes) write the same sections in the same order with item writers of identical layout; header writer, reader and HEADER_SIZE agree")
     rep.rule("C07-R3", "file-derived value used as a Vec/slice index or in overflow-checked arithmetic without a dominating comparison (panic site reachable from the loader)")
     rep.rule("C07-R4", "file-derived value used as an allocation size without a dominating comparison against a length derived from the input (unbounded allocation)")
 
@@ -252,3 +253,61 @@ def run(F, rep, tier):
             rep.bad(rule, key, "%s: %s `%s` at line(s) %s — %s" % (fn, kind, what, lines, msgs[kind]), "%s:%d" % (b.file, lines[0]))
     rep.analysed = {"crate": crate, "bodies": len(bodies), "loader_reachable_bodies": len(seen_fn), "entries": [b.fn for b, _ in entries],
                     "parser": sorted(pnames), "verifier": sorted(vnames), "tainted_sites": n_sites}
+
+
+    # ---- R2 two encoders agree
+    from lib import codec as C
+    from lib import fxn as X
+    encs = [b for b in bodies if re.search(r"CompileCtx::compile$|ParsedProgram::to_bytes$", b.fn)]
+    if rep.check(len(encs) == 2, "C07-R2", "anchor:encoders", "expected the two encoders CompileCtx::compile and ParsedProgram::to_bytes, found %s" % [b.fn for b in encs]):
+        core = F.syn(crate)
+        wt = {}
+        for it in core:
+            if it["k"] == "method" and it["name"] == "write_to" and not it["trait"]:
+                wt[X.type_head(it["self"])] = [w for w, _ in C.io_seq(it["body"], "write")]
+        seqs = []
+        for b in encs:
+            seq = sorted((t["l"], (t.get("f") or t["tf"])) for i, t in b.calls()
+                         if re.search(r"::write_to$|WriteBytesExt::write_|Write>::write_all$|::write_all$|^crc32fast", t.get("f") or t["tf"]))
+            seqs.append([c for _, c in seq])
+        a, b2 = seqs
+        rep.check(len(a) == len(b2), "C07-R2", "same-number-of-section-writes", "the two encoders perform %d and %d section writes: %s vs %s" % (len(a), len(b2), [x.split("::")[-2:] for x in a], [x.split("::")[-2:] for x in b2]))
+        for i, (x, y) in enumerate(zip(a, b2)):
+            if x == y:
+                rep.ok("C07-R2", "section-write-%d" % i, sample={"position": i, "writer": x})
+                continue
+            tx, ty = x.split("::")[-2], y.split("::")[-2]
+            lx, ly = wt.get(tx) or [], wt.get(ty) or []
+            # the re-encoder may carry extra arms (e.g. DecodedInstr::Unknown) after the shared ones: per-opcode agreement is C06-R4
+            same = x.endswith("::write_to") and y.endswith("::write_to") and lx and ly and (lx == ly or ly[:len(lx)] == lx or lx[:len(ly)] == ly)
+            rep.check(bool(same), "C07-R2", "section-write-%d" % i, "section write %d differs between the encoders: %s (%s) vs %s (%s)" % (i, x, wt.get(tx), y, wt.get(ty)),
+                      sample={"position": i, "compile": x, "to_bytes": y, "layout": wt.get(tx)})
+        # header: write_to widths == read_from widths == HEADER_SIZE
+        hw = hr = None
+        hsize = None
+        for it in core:
+            if it["k"] == "method" and X.type_head(it["self"]) == "ByteCodeHeader" and not it["trait"]:
+                if it["name"] == "write_to":
+                    hw = C.io_seq(it["body"], "write")
+                if it["name"] == "read_from":
+                    hr = C.io_seq(it["body"], "read")
+            if it["k"] == "iconst" and it["name"] == "HEADER_SIZE" and X.type_head(it["self"]) == "ByteCodeHeader":
+                try:
+                    hsize = eval(re.sub(r"[^0-9+*() ]", "", __import__("lib.facts", fromlist=["render"]).render(it["val"])))
+                except Exception:
+                    hsize = None
+        if rep.check(hw is not None and hr is not None, "C07-R2", "anchor:header-codec", "ByteCodeHeader::write_to / read_from not found"):
+            def total(seq):
+                t = 0
+                for w, a_ in seq:
+                    if w in C.W:
+                        t += C.W[w]
+                    elif w == "bytes":
+                        m = re.search(r"magic", a_)
+                        t += 4 if m else 0
+                return t
+            ww = [w for w, _ in hw if w in C.W]
+            rr = [w for w, _ in hr if w in C.W]
+            rep.check(ww == rr, "C07-R2", "header:write-read-widths", "header is written as %s but read as %s" % (ww, rr), sample={"widths": ww})
+            if hsize is not None:
+                rep.check(total(hw) == hsize, "C07-R2", "header:size-constant", "ByteCodeHeader::write_to writes %d bytes but HEADER_SIZE = %s" % (total(hw), hsize), sample={"written": total(hw), "HEADER_SIZE": hsize})
